@@ -823,7 +823,7 @@ def _lca_block(mod, func, stores):
     raise AnalysisError(f"{func.name}: statements are not in one block")
 
 
-def check_charges_and_dipole(ctx, rid):
+def check_charges_and_dipole(ctx, rid, parts=("charges", "dipole")):
     """Reported observables of the reported density, interpreted by sa.npsym on a padded batch (3-atom and 2-atom molecule):
        q_a = Z_core(a) - sum of the atom's diagonal elements of the total density (closed / open shell, 4 / 9 orbitals per atom);
        dipole_m = [sum_a Z_core(a) R_a - sum_a (sum_i P_ii R_a + 2 P_{s,p_d} D_a)] * to_debye * debye_to_AU, same core charges, closed and open shell."""
@@ -836,12 +836,13 @@ def check_charges_and_dipole(ctx, rid):
     es = repo.mod("seqm/ElectronicStructure.py")
     ef = es.func("Electronic_Structure.forward")
     stores = [st for st in ast.walk(ef) if isinstance(st, (ast.Assign, ast.AugAssign)) and norm(st.targets[0] if isinstance(st, ast.Assign) else st.target) == "molecule.q"]
-    if not stores:
+    if not stores and "charges" in parts:
         raise AnalysisError("Electronic_Structure.forward: no store to molecule.q")
-    blk, i0, i1 = _lca_block(es, ef, stores)
+    if "charges" in parts:
+        blk, i0, i1 = _lca_block(es, ef, stores)
     species = np.array([[8, 6, 1], [7, 1, 0]], dtype=np.int64)
     tore = np.array([sp.Integer(0)] + [sp.Symbol(f"Z{z}") for z in range(1, 10)], dtype=object)
-    for nbf, method in ((4, "AM1"), (9, "PM6")):
+    for nbf, method in (((4, "AM1"), (9, "PM6")) if "charges" in parts else ()):
         N = 3 * nbf
         dens = lambda name: np.array([[[sp.Symbol(f"{name}{m}_{min(i, j)}_{max(i, j)}") for j in range(N)] for i in range(N)] for m in range(2)], dtype=object)
         for open_shell in (False, True):
@@ -875,6 +876,8 @@ def check_charges_and_dipole(ctx, rid):
                       f"{method}, {'open' if open_shell else 'closed'} shell: reported atomic charges are not core charge minus the atom's block-diagonal population of the reported density "
                       f"(wrong spin block / orbital count / sign)")
     # ---- dipole
+    if "dipole" not in parts:
+        return
     dp = repo.mod("seqm/seqm_functions/dipole.py")
     cg = dp.func("calc_ground_dipole")
     S = System((3, 2), 3, 4)
@@ -1882,3 +1885,151 @@ def interpreted_hop_bookkeeping(repo):
                 if sp.simplify(et[m] - exp) != 0:
                     return False, f"the potential energy reported for trajectory {m} after the hop step is not that of its active surface (E_total - E[old] + E[new])", facts
     return True, "", facts
+
+
+# ------------------------------------------------------------------------------------------------------------------------------------------------
+# C14-R2: the tail of Energy.forward that assembles Etot / Hf from their parts, decided by value
+# ------------------------------------------------------------------------------------------------------------------------------------------------
+def interpreted_energy_tail(repo):
+    """The top-level statement of Energy.forward that calls heat_formation (the `if all_terms:` tail) is interpreted (sa.npsym) on a batch of three molecules with symbolic
+    electronic / pair-nuclear / excitation / dispersion energies; total_energy is interpreted, the isolated-atom energy, the dispersion term and heat_formation are stand-ins
+    (heat_formation records the total energy it is given).  Checked for dispersion on and off (AM1) and for PM3 with the flag on (the correction is AM1 only):
+    returned Etot = Eelec + sum of the molecule's pair terms + excitation energy (+ dispersion), each once; the heat of formation is computed from that same final Etot.
+    Returns (ok, message, name of the excitation addend)."""
+    import ast
+    import numpy as np
+    import sympy as sp
+    from .loader import AnalysisError, call_name
+    from .npsym import Instance, NpSym, Raised, _Frame, _Return
+    bs = repo.mod("seqm/basics.py")
+    f = bs.func("Energy.forward")
+    hosts = [st for st in f.body if any(isinstance(c, ast.Call) and (call_name(c) or "").split(".")[-1] == "heat_formation" for c in ast.walk(st))]
+    if len(hosts) != 1:
+        raise AnalysisError(f"Energy.forward: {len(hosts)} top-level statements call heat_formation")
+    host = hosts[0]
+    nmol = 3
+    pair_molid = np.array([0, 0, 1, 2, 2, 2], dtype=np.int64)
+    Eelec = np.array([sp.Symbol(f"Eel{m}") for m in range(nmol)], dtype=object)
+    EnucAB = np.array([sp.Symbol(f"Enuc{p}") for p in range(len(pair_molid))], dtype=object)
+    Eexc = np.array([sp.Symbol(f"Eexc{m}") for m in range(nmol)], dtype=object)
+    Edisp = np.array([sp.Symbol(f"Edisp{m}") for m in range(nmol)], dtype=object)
+    want_nuc = [sum(EnucAB[p] for p in range(len(pair_molid)) if pair_molid[p] == m) for m in range(nmol)]
+    for method, flag in (("AM1", True), ("AM1", False), ("PM3", True)):
+        seen = {}
+
+        def heat_formation(const, nmol_, atom_molid, Z, Etot, Eiso, flag=True, **k):
+            seen["Etot"] = np.asarray(Etot).copy()
+            return np.array([sp.Symbol(f"Hf{m}") for m in range(nmol)], dtype=object), np.array([sp.Symbol(f"EisoSum{m}") for m in range(nmol)], dtype=object)
+        stubs = {"elec_energy_isolated_atom": lambda *a, **k: np.array([sp.Symbol(f"Eiso{a_}") for a_ in range(5)], dtype=object),
+                 "dispersion_am1_fs1": lambda *a, **k: Edisp.copy(), "heat_formation": heat_formation}
+        I = NpSym(repo, stubs=stubs)
+        selfobj = Instance(bs, "Energy", seqm_parameters={"dispersion": flag}, method=method, Hf_flag=True)
+        params = {k: np.array([sp.Symbol(f"{k}_{a_}") for a_ in range(5)], dtype=object) for k in ("U_ss", "U_pp", "g_ss", "g_pp", "g_sp", "g_p2", "h_sp")}
+        mol = types.SimpleNamespace(nmol=nmol, pair_molid=pair_molid, const=types.SimpleNamespace(), Z=np.array([6, 1, 8, 7, 1], dtype=np.int64),
+                                    atom_molid=np.array([0, 0, 1, 2, 2], dtype=np.int64), parameters=params)
+        env = {f.args.args[0].arg: selfobj, f.args.args[1].arg: mol, "all_terms": True, "EnucAB": EnucAB.copy(), "Eelec": Eelec.copy(), "Eexcited": Eexc.copy(),
+               "P": np.zeros((nmol, 2, 2), dtype=object)}
+        for nm in ("e_gap", "e", "charge", "notconverged", "F", "w", "v", "Hcore"):
+            env[nm] = sp.Symbol(nm)
+        fr = _Frame(I, bs, env)
+        fr.qual, fr.self_name = "Energy.forward", f.args.args[0].arg
+        try:
+            fr.stmt(host)
+            return False, "the energy assembly of Energy.forward does not return when all terms are requested", "Eexcited"
+        except _Return as r:
+            ret = r.v
+        except Raised as e:
+            return False, f"the energy assembly raises on a regular request: {str(e)[:100]}", "Eexcited"
+        if not isinstance(ret, tuple) or len(ret) < 2:
+            raise AnalysisError("Energy.forward: the all-terms return is not a tuple")
+        want = [Eelec[m] + want_nuc[m] + Eexc[m] + (Edisp[m] if (flag and method == "AM1") else 0) for m in range(nmol)]
+        cand = [k for k, x in enumerate(ret) if isinstance(x, np.ndarray) and x.shape == (nmol,) and all(sp.expand(x[m] - want[m]) == 0 for m in range(nmol))]
+        if not cand:
+            shown = next((x for x in ret[1:3] if isinstance(x, np.ndarray) and x.shape == (nmol,)), None)
+            return False, (f"no returned energy equals Eelec + pair-nuclear terms of the molecule + excitation energy"
+                           f"{' + dispersion' if (flag and method == 'AM1') else ''} (method {method}, dispersion flag {flag}); the returned total energy of molecule 0 is "
+                           f"{shown[0] if shown is not None else '?'}"), "Eexcited"
+        if "Etot" not in seen:
+            return False, "heat_formation is not evaluated on the all-terms path", "Eexcited"
+        if any(sp.expand(seen["Etot"][m] - want[m]) != 0 for m in range(nmol)):
+            return False, (f"the heat of formation is computed from {seen['Etot'][0]} while the reported total energy is {want[0]} (method {method}, dispersion flag {flag}): "
+                           f"Hf and Etot describe different energies (a term is added to Etot after Hf was formed, or left out of it)"), "Eexcited"
+    return True, "", "Eexcited"
+
+
+# ------------------------------------------------------------------------------------------------------------------------------------------------
+# C14-R1/R4: what Electronic_Structure.forward reports on the molecule, decided by value (both density-propagation modes)
+# ------------------------------------------------------------------------------------------------------------------------------------------------
+def interpreted_reported_observables(repo):
+    """Electronic_Structure.forward is interpreted (sa.npsym) with stand-ins for the two force drivers that return distinct stamped results; checked for dm_prop in
+    {SCF, XL-BOMD} x {closed, open shell} x {AM1, PM6} on a padded batch: every returned quantity lands in its own attribute of the molecule (force, Hf, Etot, Eelec, Enuc,
+    Eiso, e_mo, e_gap; for XL-BOMD also entropy, dP2dt2, Krylov error, Fermi occupations), molecule.dm is the density the driver returned (not the density handed in), and
+    molecule.q is the core charge minus the block-diagonal population of that reported density.  Returns [(case, ok, message)]."""
+    import numpy as np
+    import sympy as sp
+    from .loader import AnalysisError
+    from .npsym import Instance, NpSym, Raised
+    es = repo.mod("seqm/ElectronicStructure.py")
+    f = es.func("Electronic_Structure.forward")
+    species = np.array([[8, 6, 1], [7, 1, 0]], dtype=np.int64)
+    tore = np.array([sp.Integer(0)] + [sp.Symbol(f"Z{z}") for z in range(1, 10)], dtype=object)
+    out = []
+    for dm_prop in ("SCF", "XL-BOMD"):
+        for nbf, method in ((4, "AM1"), (9, "PM6")):
+            for open_shell in (False, True):
+                N = 3 * nbf
+                dens = lambda name: np.array([[[sp.Symbol(f"{name}{m}_{min(i, j)}_{max(i, j)}") for j in range(N)] for i in range(N)] for m in range(2)], dtype=object)
+                mk = lambda tag: (np.stack([dens(tag + "a"), dens(tag + "b")], axis=1) if open_shell else dens(tag + "a"))
+                D_ret, P_in = mk("D"), mk("Q")
+                tok = {k: np.array([sp.Symbol(f"{k}{m}") for m in range(2)], dtype=object) for k in ("force", "Hf", "Etot", "Eelec", "Enuc", "Eiso", "e_mo", "e_gap", "charge",
+                                                                                                     "notconv", "entropy", "dP2dt2", "krylov", "fermi")}
+
+                def scf_driver(fr, molecule, *a, **k):
+                    return (tok["force"], D_ret.copy(), tok["Hf"], tok["Etot"], tok["Eelec"], tok["Enuc"], tok["Eiso"], tok["e_mo"], tok["e_gap"], tok["charge"], tok["notconv"])
+
+                def xl_driver(fr, molecule, P, *a, **k):
+                    return (tok["force"], D_ret.copy(), tok["Hf"], tok["Etot"], tok["Eelec"], tok["Enuc"], tok["Eiso"], tok["e_mo"], tok["e_gap"], tok["entropy"], tok["dP2dt2"],
+                            tok["krylov"], tok["fermi"])
+                mol = types.SimpleNamespace(dm=None, method=method, const=types.SimpleNamespace(tore=tore), species=species, q=None, force=None, Hf=None, Etot=None, Eelec=None,
+                                            Enuc=None, Eiso=None, e_mo=None, e_gap=None, Electronic_entropy=None, dP2dt2=None, Krylov_Error=None, Fermi_occ=None)
+                selfobj = Instance(es, "Electronic_Structure", conservative_force=scf_driver, conservative_force_xl=xl_driver, seqm_parameters={}, charge=None, notconverged=None)
+                case = f"dm_prop={dm_prop}, {method}, {'open' if open_shell else 'closed'} shell"
+                try:
+                    NpSym(repo).call_function(es, f, [selfobj, mol], {"P0": P_in.copy(), "dm_prop": dm_prop, "xl_bomd_params": {"k": 4}})
+                except Raised as e:
+                    out.append((case, False, f"Electronic_Structure.forward raises on a regular request: {str(e)[:100]}"))
+                    continue
+                msg = ""
+                pairs = [("force", "force"), ("Hf", "Hf"), ("Etot", "Etot"), ("Eelec", "Eelec"), ("Enuc", "Enuc"), ("Eiso", "Eiso"), ("e_mo", "e_mo"), ("e_gap", "e_gap")]
+                if dm_prop == "XL-BOMD":
+                    pairs += [("Electronic_entropy", "entropy"), ("dP2dt2", "dP2dt2"), ("Krylov_Error", "krylov"), ("Fermi_occ", "fermi")]
+                for attr, k in pairs:
+                    v = getattr(mol, attr, None)
+                    if not (isinstance(v, np.ndarray) and v.shape == tok[k].shape and all(sp.sympify(a_) == b_ for a_, b_ in zip(v, tok[k]))):
+                        msg = f"molecule.{attr} does not receive the driver's `{k}` result (it holds {str(v)[:40]})"
+                        break
+                if not msg:
+                    dm = mol.dm
+                    if not (isinstance(dm, np.ndarray) and dm.shape == D_ret.shape and bool((dm == D_ret).all())):
+                        msg = ("molecule.dm is not the density matrix returned by the force driver" +
+                               (" (it is the density that was handed in: with XL-BOMD that is the propagated auxiliary density)" if isinstance(dm, np.ndarray) and dm.shape == P_in.shape and bool((dm == P_in).all()) else ""))
+                if not msg:
+                    Ptot = (D_ret[:, 0] + D_ret[:, 1]) if open_shell else D_ret
+                    q = mol.q
+                    ok = getattr(q, "shape", None) == (2, 3)
+                    bad_from_in = False
+                    if ok:
+                        Pin_tot = (P_in[:, 0] + P_in[:, 1]) if open_shell else P_in
+                        for m in range(2):
+                            for a in range(3):
+                                want = tore[species[m, a]] - sp.Add(*[Ptot[m, a * nbf + i, a * nbf + i] for i in range(nbf)])
+                                if sp.expand(sp.sympify(q[m, a]) - want) != 0:
+                                    ok = False
+                                    alt = tore[species[m, a]] - sp.Add(*[Pin_tot[m, a * nbf + i, a * nbf + i] for i in range(nbf)])
+                                    bad_from_in = bad_from_in or sp.expand(sp.sympify(q[m, a]) - alt) == 0
+                    if not ok:
+                        msg = ("the reported atomic charges are not core charge minus the block-diagonal population of the reported density molecule.dm" +
+                               (": they are computed from the density that was handed in (with XL-BOMD the propagated auxiliary density), so charges and density describe different states"
+                                if bad_from_in else " (wrong spin block / orbital count / sign)"))
+                out.append((case, not msg, msg))
+    return out
